@@ -36,6 +36,7 @@ func c08(c *Ctx) {
 	r.Floor("write sites checked (O3)", writes, 60)
 	r.Floor("result origin checks (O2)", outs, 16)
 	r.Floor("retained-state fields checked (O1)", keeps, 2)
+	fns = append(fns, av1Setup(c)...)
 	boundsFor(c, "C08", fns)
 	nm := 0
 	for _, o := range r.Obls {
